@@ -190,9 +190,37 @@ def reverts(only, budget):
     return res
 
 
+def findings():
+    """Every recorded replay of a repaired defect fires on the tree before the first fix: commit and is quiet on
+    the current tree."""
+    log = subprocess.run(["git", "-C", "/repo", "log", "--reverse", "--format=%H %s"], capture_output=True, text=True).stdout.splitlines()
+    first_fix = next((l.split()[0] for l in log if l.split(" ", 1)[1].startswith("fix:")), None)
+    if first_fix is None:
+        print("no fix: commit in /repo")
+        return []
+    wt = tempfile.mkdtemp(prefix="qcosim_base_")
+    os.rmdir(wt)
+    subprocess.run(["git", "-C", "/repo", "worktree", "add", "-q", "--detach", wt, first_fix + "^"], check=True)
+    res = []
+    try:
+        for fn in sorted(os.listdir(os.path.join(VERIF, "findings"))):
+            path = os.path.join(VERIF, "findings", fn)
+            env = dict(os.environ)
+            new = subprocess.run([os.path.join(VERIF, "check"), "--replay", path], capture_output=True, text=True, env=env).stdout.startswith("VIOLATION")
+            env["QCOSIM_REPO_SRC"] = os.path.join(wt, "src")
+            old = subprocess.run([os.path.join(VERIF, "check"), "--replay", path], capture_output=True, text=True, env=env).stdout.startswith("VIOLATION")
+            ok = old and not new
+            res.append({"id": fn, "property": json.load(open(path))["property"], "status": "CAUGHT" if ok else "MISSED",
+                        "fires_before_repairs": old, "fires_on_current_tree": new})
+            print(f"{fn:60s} before repairs: {'VIOLATION' if old else 'quiet':9s} current tree: {'VIOLATION' if new else 'quiet'}")
+    finally:
+        subprocess.run(["git", "-C", "/repo", "worktree", "remove", "--force", wt], capture_output=True)
+    return res
+
+
 def main():
     ap = argparse.ArgumentParser()
-    ap.add_argument("what", choices=["determinism", "mutants", "seeded", "reverts"])
+    ap.add_argument("what", choices=["determinism", "mutants", "seeded", "reverts", "findings"])
     ap.add_argument("--n", type=int, default=1200)
     ap.add_argument("--profiles", default="C03,C18,C05")
     ap.add_argument("--only")
@@ -202,7 +230,9 @@ def main():
     a = ap.parse_args()
     if a.what == "determinism":
         return determinism(a.n, a.profiles.split(","))
-    if a.what == "reverts":
+    if a.what == "findings":
+        res = findings()
+    elif a.what == "reverts":
         res = reverts(a.only, a.budget)
     else:
         res = mutants(a.only, a.with_tests, a.budget) if a.what == "mutants" else seeded(a.only, a.budget)
